@@ -311,9 +311,59 @@ def rule_dedup_all(ctx: Ctx) -> None:
     dels = [d for d in ast.walk(fn) if isinstance(d, ast.Delete) and any(isinstance(t, ast.Subscript) and norm(t.value) == res for t in d.targets)]
     if dels:
         ctx.ok("dedup.covers-all", m, dels[0], what=f"redundant entries are deleted from `{res}`")
+        _dedup_model(ctx, m, fn, res, X, defs, dels)
     else:
         ctx.fail("dedup.covers-all", m, fn, f"solve() never deletes the redundant entries from `{res}`", func="AlternateTargetSolver.solve",
                  construct="solve: redundant entries not deleted")
+
+
+def _dedup_model(ctx, m, fn, res, X, defs, dels) -> None:
+    """dedup.model: the duplicate filter (from the list of graphs to the last deletion) interpreted for every partition of up to five
+    result entries into classes of equal graphs (gqsa/minterp.py; np.array_equal answers from the partition): afterwards the
+    surviving entries list pairwise different graphs, and every graph that was listed is still listed once."""
+    from .. import minterp
+    top = list(fn.body)
+    a0 = [i for i, st in enumerate(top) if st in defs]
+    d1 = [i for i, st in enumerate(top) if any(d in list(ast.walk(st)) for d in dels)]
+    if not a0 or not d1 or d1[-1] <= a0[-1]:
+        raise AnalysisError("solve(): the duplicate filter is not a straight block from the graph list to the deletion")
+    block = top[a0[-1] + 1: d1[-1] + 1]
+
+    def oracle(c, it):
+        if call_name(c) in ("np.array_equal", "nx.utils.graphs_equal") and len(c.args) == 2:
+            return it.ev(c.args[0]) == it.ev(c.args[1])
+        return NotImplemented
+    n_models = 0
+    for n in range(0, 6):
+        for part in minterp.partitions(n):
+            n_models += 1
+            env = {res: [("entry", k) for k in range(n)], X: list(part)}
+            it = minterp.Interp(env, oracle)
+            why = None
+            try:
+                it.run(block)
+            except minterp.Unmodelled as e:
+                raise AnalysisError(f"solve(): duplicate filter uses a construct the list model does not cover: {e}")
+            except minterp.ModelError as e:
+                why = f"the filter fails ({e})"
+            except minterp.Return:
+                raise AnalysisError("solve(): return inside the duplicate filter")
+            if why is None:
+                left = env[res]
+                if not isinstance(left, list) or any(not (isinstance(x, tuple) and x[0] == "entry") for x in left):
+                    raise AnalysisError("solve(): the result list does not hold result entries after the filter")
+                cls = [part[x[1]] for x in left]
+                if len(set(cls)) != len(cls):
+                    dup = next(c_ for c_ in cls if cls.count(c_) > 1)
+                    same = [k for k in range(n) if part[k] == dup]
+                    why = f"entries {[x[1] for x in left if part[x[1]] == dup]} survive although they list the same graph (entries {same} are equal)"
+                elif set(cls) != set(part):
+                    why = f"a listed graph disappears altogether (surviving entries {[x[1] for x in left]})"
+            if why:
+                ctx.fail("dedup.model", m, block[0], f"solve(): duplicate filter, {n} result entries with equal-graph classes {list(part)}: {why}",
+                         func="AlternateTargetSolver.solve", construct=f"solve: duplicate filter wrong in the list model")
+                return
+    ctx.ok("dedup.model", m, block[0], what=f"{n_models} partitions of up to 5 entries: survivors pairwise different, every graph kept once")
 
 
 def rule_str_to_op(ctx: Ctx) -> None:
@@ -438,6 +488,9 @@ def _edit_dedup_helper(src: str) -> str:
 
 
 KNOCKOUTS = [
+    Knockout("dedup-skips-new-groups", ATS, sub_once("            if not already_found:\n                s = {i}", "            if already_found:\n                s = {i}"), "dedup.model", "survive although"),
+    Knockout("dedup-found-in-any-other-group", ATS, sub_once("                if i in s:\n                    already_found = True", "                if i not in s:\n                    already_found = True"), "dedup.model", "duplicate filter"),
+    Knockout("dedup-deletes-ascending", ATS, sub_once("        for index in redundant_indices[::-1]:", "        for index in redundant_indices:"), "dedup.model", "duplicate filter"),
     Knockout("str-to-op-on-emitters", LCC, sub_once('operations_list.append(ops_list[op_index](register=gate[1], reg_type="p"))', 'operations_list.append(ops_list[op_index](register=gate[1], reg_type="e"))'), "vocab.gates", "photons"),
     Knockout("str-to-op-index-shifted", LCC, sub_once("            op_index = name_list.index(gate[0])", "            op_index = name_list.index(gate[0]) - 1"), "vocab.gates", "position"),
     Knockout("str-to-op-wrapper-application-order", LCC, sub_once("        operations_list = []\n        for gate in gate_tuples:\n            op_index = name_list.index(gate[0])\n            operations_list.append(ops_list[op_index](register=gate[1], reg_type=\"p\"))\n", "        per_qubit = {}\n        for gate in gate_tuples:\n            per_qubit.setdefault(gate[1], []).append(ops_list[name_list.index(gate[0])])\n        operations_list = [ops.OneQubitGateWrapper(gs, register=q, reg_type=\"p\") for q, gs in per_qubit.items()]\n"), "order.wrapper", "application order"),
